@@ -340,12 +340,15 @@ def evaluate_stream(ctx, res):
     st = rep["stat"]
     nops = int(st.get("ops", 0))
     ctx.cov["evaluations"] += nops
-    ctx.cov["distinct_nontrivial"] += int(st.get("statechanges", 0))
+    distinct = len(set(l for l in res.ops if l.startswith("p ") or l.startswith("s ")))
+    ctx.cov["distinct_nontrivial"] += distinct
+    ctx.cov["state_changing_ops"] = ctx.cov.get("state_changing_ops", 0) + int(st.get("statechanges", 0))
     ctx.cov["events"] += int(st.get("events", 0))
     ctx.cov["groups"] += int(st.get("groups", 0))
     ctx.cov["streams"].append({"name": name, "cfg": res.cfg, "ops": nops, "groups": int(st.get("groups", 0)),
                                "events": int(st.get("events", 0)), "state_changing_ops": int(st.get("statechanges", 0)),
-                               "evhist": st.get("evhist", ""), "harness_exit": res.harness_rc})
+                               "distinct_group_or_string_ops": distinct,
+                               "callbacks_by_kind[pi,pty,tp,ta,ms,ecc,country,af,ps,rt,ptyn,ct]": st.get("evhist", []), "harness_exit": res.harness_rc})
     if len(ctx.cov["samples"]) < 6:
         body = [l for l in res.ops if l.startswith("p ") or l.startswith("s ")]
         ctx.cov["samples"].append({"stream": name, "ops": res.ops[:3] + body[:3]})
@@ -493,8 +496,9 @@ def write_evidence(ctx, rc):
     cov["trusted_base"] = runner.TRUSTED_BASE
     cov["rule"] = ("ops files generated from one PRNG seeded by VERIF_SEED (structured generator + exhaustive sweeps, tools/gen.py, tools/props.py:streams); "
                    "each op is executed by the real library (ASan+UBSan build of the current tree) and by the Lean model; "
-                   "evaluations = ops executed and compared; distinct_nontrivial = ops after which the getter-visible state of the implementation changed "
-                   "(plus, for twin runs, ops whose twin differs in a don't-care component)")
+                   "evaluations = ops executed by the real library and compared with the model / evaluated by the monitors; distinct_nontrivial = number of DISTINCT "
+                   "operation texts (per stream) that deliver a group or a string to the parser (setters, resets, observer calls and exact repeats are not counted), "
+                   "plus, for twin runs, the ops whose twin differs in a don't-care component; state_changing_ops = ops after which the getter-visible state changed")
     cov["exhaustive"] = False
     ev = {"property_id": ctx.pid, "tier": ctx.tier if ctx.tier in ("quick", "thorough") else "quick", "seed": ctx.seed,
           "level": "proof", "coverage": cov,
